@@ -19,7 +19,7 @@ import (
 
 type c06Sess struct {
 	Remote  int    // hold time proposed by the remote
-	Traffic string // silent | ka | upd | mixed | ocsilent | busy
+	Traffic string // silent | ka | upd | mixed | ocsilent | busy | cease
 	Local   string // none | burst | periodic  (local WriteUpdate pattern)
 }
 
@@ -180,7 +180,7 @@ func c06World(t *testing.T, p c06Params) rt.Result {
 					}
 					time.Sleep(d)
 					switch {
-					case sp.Traffic == "ka" || (sp.Traffic == "mixed" && r.IntN(2) == 0):
+					case sp.Traffic == "ka" || sp.Traffic == "cease" || (sp.Traffic == "mixed" && r.IntN(2) == 0):
 						rc.SendKeepalive()
 					default:
 						rc.SendUpdate([]byte{0, 0, 0, 0})
@@ -191,6 +191,20 @@ func c06World(t *testing.T, p c06Params) rt.Result {
 						return
 					}
 				}
+			}
+			if sp.Traffic == "cease" {
+				// the remote ends the session itself: no protocol error, no hold-down, and an
+				// outbound fsm object goes on to the next session with whatever it remembers
+				rc.SendNotification(6, 2, nil)
+				w.Settle()
+				if eof, _ := rc.EOF(); !eof {
+					w.Violate("%s connection not closed after the remote's Cease", desc)
+					return
+				}
+				if ns := notifsOf(rc.Msgs()); len(ns) != 0 {
+					w.Violate("%s corebgp sent %v in a session the remote ended with a Cease after regular KEEPALIVEs", desc, ns[0])
+				}
+				continue
 			}
 			// silence
 			if H == 0 {
@@ -288,7 +302,7 @@ func tail(ms []hz.RMsg, n int) string {
 func TestC06(t *testing.T) {
 	c := rt.Get()
 	holds := []int{0, 3, 4, 9, 10, 30, 90, 65535}
-	traffic := []string{"silent", "ka", "upd", "mixed", "ocsilent", "busy"}
+	traffic := []string{"silent", "ka", "upd", "mixed", "ocsilent", "busy", "cease"}
 	locals := []string{"none", "burst", "periodic"}
 	idx := 0
 	// the full (local, remote) grid x traffic, single session, both directions
